@@ -791,6 +791,58 @@ func checkBoothScan(c *Ctx) {
 				st = holds
 			case lCur && !rCur && !less, rCur && !lCur && less:
 				st = broken
+				// the direction matters where the comparison SELECTS: its true branch takes a new start index
+				// computed from the scan position. A '>' that only cuts a walk short selects nothing.
+				selects := false
+				if bo.Referrers() != nil {
+					for _, r := range *bo.Referrers() {
+						ifi, isIf := r.(*ssa.If)
+						if !isIf || len(ifi.Block().Succs) != 2 {
+							continue
+						}
+						tsucc := ifi.Block().Succs[0]
+						for _, blk := range b.Blocks {
+							if blk != tsucc && !(tsucc.Dominates(blk) && len(tsucc.Preds) == 1) {
+								continue
+							}
+							// the scan position itself taken as the new start: it arrives in a phi over an edge from this region
+							for _, sx := range blk.Succs {
+								for k, pr := range sx.Preds {
+									if pr != blk {
+										continue
+									}
+									for _, in := range sx.Instrs {
+										ph, isPhi := in.(*ssa.Phi)
+										if !isPhi {
+											break
+										}
+										if k < len(ph.Edges) && isCounter(ph.Edges[k]) && ph.Edges[k] != ssa.Value(ph) {
+											// the counter's own phi carries the counter round the loop: that is not a selection
+											if cp, isCP := ph.Edges[k].(*ssa.Phi); !isCP || cp.Block() != sx {
+												selects = true
+											}
+										}
+									}
+								}
+							}
+							for _, in := range blk.Instrs {
+								ar, isAr := in.(*ssa.BinOp)
+								if !isAr || (ar.Op != token.SUB && ar.Op != token.ADD) || !(isCounter(ar.X) || isCounter(ar.Y)) || ar.Referrers() == nil {
+									continue
+								}
+								for _, rr := range *ar.Referrers() {
+									switch rr.(type) {
+									case *ssa.Phi, *ssa.BinOp, *ssa.Return:
+										selects = true
+									}
+								}
+							}
+						}
+					}
+				}
+				if !selects {
+					st = unknown
+				}
 			}
 		}
 		c.judge(st, "ORDER-DIR", "character < reference", bo.Pos(), "the scanned character is compared with '<' against the reference (smallest rotation wins)", "a byte comparison in the rotation scan reads 'current character > reference': the scan selects a greater rotation")
@@ -829,7 +881,9 @@ func checkBoothScan(c *Ctx) {
 				}
 				for _, sx := range lb.Succs {
 					if !inL(sx) {
-						c.bad("ORDER-DIR", "BYTEWISE: scan visits every byte index", lb.Instrs[len(lb.Instrs)-1].Pos(), "the rotation scan can leave its loop before the last character (an exit at "+c.W.pos(lastPos(lb))+"): a later position that would still win the comparison is never looked at, so some inputs are not rotated to their least rotation")
+						// an exit before the last character may be a sound cut-off (nothing tied after one full turn) or
+						// a lost comparison: the loop's shape does not tell them apart, so nothing is claimed either way
+						c.undecided("ORDER-DIR", "BYTEWISE: scan visits every byte index", lb.Instrs[len(lb.Instrs)-1].Pos(), "the rotation scan can leave its loop before the last character (an exit at "+c.W.pos(lastPos(lb))+"): a later position that would still win the comparison is never looked at, so some inputs are not rotated to their least rotation")
 					}
 				}
 			}
